@@ -111,13 +111,16 @@ theorem C15_validity_date_never_panics (y : Int) : validityYearToUtc y ≠ .pani
   · simp
   · split <;> simp
 
-/-- every site of the generated inventory has a justification, and every site whose justification
-is "modelled" is one of the sites the theorems above speak about -/
+/-- every site of the generated inventory has a justification in the table, and every site whose
+justification is "modelled" is one of the sites the theorems above speak about -/
 theorem C15_inventory_justified (s : PanicSite) :
-    ∃ j, Spec.C15.justify s = j ∧ (∀ t, j = .modelled t → s ∈ Spec.C15.modelledSites) := by
-  refine ⟨_, rfl, ?_⟩
-  intro t h
-  cases s <;> simp [Spec.C15.justify] at h <;> simp [Spec.C15.modelledSites]
+    (Spec.C15.justify? s).isSome = true ∧
+    ((Spec.C15.justify? s).any Spec.C15.Justification.isModelled = true → s.key ∈ Spec.C15.modelledKeys) := by
+  cases s <;> decide
+
+/-- the enumeration used for reporting lists every site -/
+theorem C15_inventory_enumerated (s : PanicSite) : s ∈ PanicSite.all := by
+  cases s <;> decide
 
 /-! The pinned commit violated the property — kept as checked witnesses (negation by example): -/
 
